@@ -52,8 +52,39 @@ def run(sc, workdir):
     info = model.info
     P = info.parameters
     fn, _lib, sym = w_orient.particle_fn(info, workdir)
-    pars = w_orient.base_pars(info, rng) if sc.get("random") else {k: float(v) for k, v in P.defaults.items()
-                                                                    if not k.startswith("up_") and not k.endswith(("_M0", "_mtheta", "_mphi"))}
+    def draw(kind):
+        pars = {k: float(v) for k, v in P.defaults.items()
+                if not k.startswith("up_") and not k.endswith(("_M0", "_mtheta", "_mphi"))}
+        if kind == "random" and info.random is not None:
+            np.random.seed(rng.randrange(2 ** 31))
+            known = set(p.name for p in P.call_parameters)
+            pars.update({k: float(v) for k, v in info.random().items() if k in known})
+        elif kind != "default":
+            # the default shape with every size and ratio moved by an independent moderate factor: leaves the
+            # symmetric defaults (cubes, circular sections) without reaching shapes the quadratures cannot resolve
+            for p in P.call_parameters:
+                if p.type == "volume" and p.name in pars:
+                    v = pars[p.name] * rng.choice([0.6, 0.75, 0.9, 1.25, 1.4, 1.6])
+                    lo, hi = p.limits
+                    if lo < v < hi:
+                        pars[p.name] = v
+        pars["scale"], pars["background"] = 1.0, 0.0
+        return pars
+
+    kind = sc.get("kind", "random" if sc.get("random") else "default")
+    pars = draw(kind)
+    if kind == "perturbed":
+        # a perturbed set may leave the model's validity region (radius_cap < radius ...): the kernel then
+        # returns exactly zero.  Such draws are replaced; if none is valid the defaults are used, so a 1-D
+        # function that returns zero everywhere is still compared with the average.
+        kq = model.make_kernel([np.array([0.01, 0.02])])
+        for _ in range(8):
+            if np.any(call_kernel(kq, dict(pars)) != 0.0):
+                break
+            pars = draw(kind)
+        else:
+            pars = draw("default")
+        kq.release()
     pars["scale"], pars["background"] = 1.0, 0.0
     # q with q*size moderate: size = largest Ang-valued parameter
     sizes = [abs(float(pars[p.name])) for p in P.call_parameters if p.units == "Ang" and p.name in pars and p.type == "volume"]
